@@ -151,8 +151,10 @@ def normalise_dispatch(tree: ast.Module) -> list[str]:
     t.visit(tree)
     p = PullLoopNormaliser()
     p.visit(tree)
+    a = AliasInliner()
+    a.visit(tree)
     ast.fix_missing_locations(tree)
-    return t.log + p.log
+    return t.log + p.log + a.log
 
 
 class Dispatch:
@@ -449,3 +451,98 @@ class PullLoopNormaliser(ast.NodeTransformer):
 
     def visit_AsyncFor(self, node):
         return self._loop(node, True)
+
+
+class AliasInliner(ast.NodeTransformer):
+    """`x = self.a.b` (one definition, pure attribute chain, never rebound)
+    makes `x` another spelling of `self.a.b`: uses of `x` that come before
+    any re-assignment of that attribute are replaced by the chain, so rules
+    see the attribute whether or not somebody hoisted it into a local."""
+
+    def __init__(self):
+        self.log: list[str] = []
+
+    def _fn(self, node):
+        self.generic_visit(node)
+        from sa.model import clone
+        stores: dict[str, list[ast.AST]] = {}
+        for n in ast.walk(node):
+            if isinstance(n, ast.Name) and isinstance(n.ctx, (ast.Store,
+                                                               ast.Del)):
+                stores.setdefault(n.id, []).append(n)
+            elif isinstance(n, ast.arg):
+                stores.setdefault(n.arg, []).append(n)
+        nested = [n for n in ast.walk(node) if n is not node and isinstance(
+            n, (ast.FunctionDef, ast.AsyncFunctionDef, ast.Lambda))]
+        nested_names = {x.id for f in nested for x in ast.walk(f)
+                        if isinstance(x, ast.Name)}
+        aliases = {}
+        for st in ast.walk(node):
+            if not isinstance(st, (ast.Assign, ast.AnnAssign)) or \
+                    st.value is None:
+                continue
+            t = st.targets[0] if isinstance(st, ast.Assign) else st.target
+            if isinstance(st, ast.Assign) and len(st.targets) != 1:
+                continue
+            v = st.value
+            root = v
+            depth = 0
+            while isinstance(root, ast.Attribute):
+                root = root.value
+                depth += 1
+            if not (isinstance(t, ast.Name) and depth >= 1 and isinstance(
+                    root, ast.Name) and root.id in ("self", "cls")):
+                continue
+            if len(stores.get(t.id, [])) != 1 or t.id in nested_names:
+                continue
+            # the attribute must not be re-assigned before the last use
+            chain = ast.unparse(v)
+            rebinds = [x.lineno for x in ast.walk(node) if isinstance(
+                x, (ast.Assign, ast.AugAssign, ast.AnnAssign, ast.Delete)) and
+                any(ast.unparse(tg) == chain for tg in (
+                    x.targets if isinstance(x, (ast.Assign, ast.Delete))
+                    else [x.target])) and x is not st]
+            uses = [x for x in ast.walk(node) if isinstance(x, ast.Name) and
+                    x.id == t.id and isinstance(x.ctx, ast.Load)]
+            if rebinds and uses and max(u.lineno for u in uses) >= min(rebinds):
+                continue
+            aliases[t.id] = (v, st)
+        if not aliases:
+            return node
+
+        class R(ast.NodeTransformer):
+
+            def visit_Name(self, n):
+                if isinstance(n.ctx, ast.Load) and n.id in aliases:
+                    return ast.copy_location(clone(aliases[n.id][0]), n)
+                return n
+
+        drop = {id(st) for _v, st in aliases.values()}
+
+        def strip(stmts):
+            out = []
+            for x in stmts:
+                if id(x) in drop:
+                    continue
+                for fld in ("body", "orelse", "finalbody"):
+                    sub = getattr(x, fld, None)
+                    if isinstance(sub, list) and sub and isinstance(
+                            sub[0], ast.stmt):
+                        setattr(x, fld, strip(sub) or [ast.Pass()])
+                if isinstance(x, ast.Try):
+                    for h in x.handlers:
+                        h.body = strip(h.body) or [ast.Pass()]
+                if isinstance(x, ast.Match):
+                    for c in x.cases:
+                        c.body = strip(c.body) or [ast.Pass()]
+                out.append(x)
+            return out
+
+        node.body = strip(node.body) or [ast.Pass()]
+        node = R().visit(node)
+        self.log.append(f"{node.name}: attribute aliases "
+                        f"{sorted(aliases)} read as their chains")
+        return node
+
+    visit_FunctionDef = _fn
+    visit_AsyncFunctionDef = _fn
